@@ -255,8 +255,16 @@ Proof. vm_compute. discriminate. Qed.
 
 (* ---------- names with an empty component are rejected (repair: parseArchInto) ---------- *)
 Definition arch_ok (x : str) : bool := forallb (fun f => negb (str_eqb f [])) (split_dash 3 [] x).
-(* ParseArch as the code has it now: an error for "", "-", "linux-", "--", ... *)
-Definition parse_arch_opt (x : str) : option arch := if arch_ok x then Some (parse_arch x) else None.
+(* the name proper: an error for "", "-", "linux-", "--", ... *)
+Definition parse_arch_core (x : str) : option arch := if arch_ok x then Some (parse_arch x) else None.
+(* ParseArch / Arch.UnmarshalControl as the code has them now (parseArchInto after repair 54cb699): the blanks around the name
+   are dropped - a folded field arrives as "linux-any\n" - and a name with a blank inside is refused *)
+Definition is_ws4 (c : ascii) : bool :=
+  match c with " "%char | "009"%char | "010"%char | "013"%char => true | _ => false end.
+Fixpoint drop_ws4 (x : str) : str := match x with c :: r => if is_ws4 c then drop_ws4 r else x | [] => [] end.
+Definition trim4 (x : str) : str := rev (drop_ws4 (rev (drop_ws4 x))).
+Definition parse_arch_opt (x : str) : option arch :=
+  let t := trim4 x in if existsb is_ws4 t then None else parse_arch_core t.
 
 Definition nonempty3 (a : arch) : Prop := abi a <> [] /\ os a <> [] /\ cpu a <> [].
 
@@ -299,12 +307,94 @@ Proof.
   intros H. pose proof (arch_roundtrip x (arch_ok_not_zero x H)) as R. split; [|exact R].
   apply nonempty_arch_ok. rewrite R. now apply arch_ok_nonempty.
 Qed.
-Theorem arch_opt_roundtrip x a : parse_arch_opt x = Some a -> parse_arch_opt (arch_string a) = Some a.
+Theorem arch_core_roundtrip x a : parse_arch_core x = Some a -> parse_arch_core (arch_string a) = Some a.
 Proof.
-  unfold parse_arch_opt. destruct (arch_ok x) eqn:H; [|discriminate]. intros E. inversion E; subst.
+  unfold parse_arch_core. destruct (arch_ok x) eqn:H; [|discriminate]. intros E. inversion E; subst.
   destruct (arch_roundtrip_ok x H) as [O R]. now rewrite O, R.
 Qed.
+
+(* ---- blanks: none inside an accepted name, so none in what it renders to ---- *)
+Definition clean4 (x : str) : Prop := Forall (fun c => is_ws4 c = false) x.
+Lemma clean4_exists x : clean4 x <-> existsb is_ws4 x = false.
+Proof.
+  unfold clean4. induction x as [|c r IH]; cbn; [split; [reflexivity|constructor]|].
+  split.
+  - intros H. inversion H; subst. apply orb_false_iff. split; [assumption|now apply IH].
+  - intros H. apply orb_false_iff in H as [H1 H2]. constructor; [exact H1|now apply IH].
+Qed.
+Lemma drop_ws4_clean x : clean4 x -> drop_ws4 x = x.
+Proof. intros H. destruct x as [|c r]; [reflexivity|]. inversion H; subst. cbn. now replace (is_ws4 c) with false. Qed.
+Lemma clean4_rev x : clean4 x -> clean4 (rev x).
+Proof. apply Forall_rev. Qed.
+Lemma trim4_clean x : clean4 x -> trim4 x = x.
+Proof. intros H. unfold trim4. rewrite (drop_ws4_clean x H), (drop_ws4_clean (rev x) (clean4_rev x H)). apply rev_involutive. Qed.
+Lemma clean4_app x y : clean4 x -> clean4 y -> clean4 (x ++ y).
+Proof. intros. apply Forall_app. now split. Qed.
+Lemma split_dash_clean : forall x n cur, clean4 x -> clean4 cur -> Forall clean4 (split_dash n cur x).
+Proof.
+  induction x as [|c r IH]; intros n cur Hx Hc; cbn [split_dash].
+  - constructor; [now apply clean4_rev|constructor].
+  - inversion Hx as [|? ? Hcc Hr]; subst. destruct n as [|[|k]].
+    + constructor; [|constructor]. apply clean4_app; [now apply clean4_rev|exact Hx].
+    + constructor; [|constructor]. apply clean4_app; [now apply clean4_rev|exact Hx].
+    + destruct (is_dash c).
+      * constructor; [now apply clean4_rev|]. apply IH; [exact Hr|constructor].
+      * apply IH; [exact Hr|]. constructor; assumption.
+Qed.
+Lemma parse_arch_clean t : clean4 t -> clean4 (abi (parse_arch t)) /\ clean4 (os (parse_arch t)) /\ clean4 (cpu (parse_arch t)).
+Proof.
+  intros H. pose proof (split_dash_clean t 3 [] H (Forall_nil _)) as S. unfold parse_arch.
+  assert (Cg : clean4 gnu) by (repeat constructor). assert (Cl : clean4 linux) by (repeat constructor). assert (Ca : clean4 any) by (repeat constructor).
+  destruct (split_dash 3 [] t) as [|p1 [|p2 [|p3 [|p4 l]]]]; cbn [mk abi os cpu].
+  - auto.
+  - inversion S; subst. destruct (_ || _); cbn [mk abi os cpu]; auto.
+  - inversion S as [|? ? H1 S2]; subst. inversion S2; subst. cbn [mk abi os cpu]. destruct (_ || _); auto.
+  - inversion S as [|? ? H1 S2]; subst. inversion S2 as [|? ? H2 S3]; subst. inversion S3; subst. auto.
+  - auto.
+Qed.
+Lemma arch_string_clean a : clean4 (abi a) -> clean4 (os a) -> clean4 (cpu a) -> clean4 (arch_string a).
+Proof.
+  intros A O C. unfold arch_string. assert (D : is_ws4 dash = false) by reflexivity.
+  match goal with |- clean4 (if ?b then _ else _) => destruct b; [constructor|] end. cbv zeta.
+  match goal with |- clean4 (if ?b then _ else _) => destruct b; [exact C|] end.
+  match goal with |- clean4 (if ?b then _ else _) => destruct b; [exact C|] end.
+  match goal with |- clean4 (if ?b then _ else _) => destruct b end.
+  - unfold join2. apply clean4_app; [exact O|]. constructor; [exact D|exact C].
+  - unfold join3. apply clean4_app; [exact A|]. constructor; [exact D|]. apply clean4_app; [exact O|]. constructor; [exact D|exact C].
+Qed.
+
+(* C05 for architecture names as ParseArch / UnmarshalControl read them: whatever is accepted - blanks around the name or
+   not - renders to a name that is accepted and parses to the same triple *)
+Theorem arch_opt_roundtrip x a : parse_arch_opt x = Some a -> parse_arch_opt (arch_string a) = Some a.
+Proof.
+  unfold parse_arch_opt. cbv zeta. destruct (existsb is_ws4 (trim4 x)) eqn:W; [discriminate|]. intros E.
+  apply clean4_exists in W. pose proof E as E0. unfold parse_arch_core in E0. destruct (arch_ok (trim4 x)); [|discriminate].
+  inversion E0; subst. destruct (parse_arch_clean (trim4 x) W) as (A&O&C).
+  pose proof (arch_string_clean _ A O C) as Cs. rewrite (trim4_clean _ Cs).
+  replace (existsb is_ws4 (arch_string (parse_arch (trim4 x)))) with false by (symmetry; now apply clean4_exists).
+  now apply (arch_core_roundtrip (trim4 x)).
+Qed.
+(* the blanks around a name do not matter, a blank inside refuses it *)
+Theorem arch_opt_trims w1 x w2 : Forall (fun c => is_ws4 c = true) w1 -> Forall (fun c => is_ws4 c = true) w2 -> clean4 x ->
+  parse_arch_opt (w1 ++ x ++ w2) = parse_arch_core x.
+Proof.
+  intros H1 H2 Hx. unfold parse_arch_opt. cbv zeta.
+  assert (D1 : forall y, drop_ws4 (w1 ++ y) = drop_ws4 y) by (intros y; induction H1 as [|c w Hc _ IH]; [reflexivity|cbn; now rewrite Hc]).
+  assert (D2 : forall y, drop_ws4 (rev w2 ++ y) = drop_ws4 y).
+  { intros y. assert (R : Forall (fun c => is_ws4 c = true) (rev w2)) by (now apply Forall_rev). induction R as [|c w Hc _ IH]; [reflexivity|cbn; now rewrite Hc]. }
+  assert (T : trim4 (w1 ++ x ++ w2) = x).
+  { unfold trim4. rewrite D1. destruct x as [|c r].
+    - cbn [app]. assert (E : drop_ws4 w2 = []) by (clear -H2; induction H2 as [|c w Hc _ IH]; [reflexivity|cbn; now rewrite Hc]). now rewrite E.
+    - inversion Hx as [|? ? Hc Hr]; subst. cbn [app drop_ws4]. rewrite Hc.
+      change (c :: r ++ w2) with ((c :: r) ++ w2). rewrite rev_app_distr, D2.
+      rewrite (drop_ws4_clean (rev (c :: r)) (clean4_rev _ Hx)). apply rev_involutive. }
+  rewrite T. replace (existsb is_ws4 x) with false by (symmetry; now apply clean4_exists). reflexivity.
+Qed.
 Print Assumptions arch_opt_roundtrip.
+Example blanks_around_and_inside : parse_arch_opt (s "linux-any" ++ ["010"%char]) = parse_arch_opt (s "linux-any") /\
+  parse_arch_opt (s " amd64  ") = parse_arch_opt (s "amd64") /\ parse_arch_opt (s "gnu- - all") = None /\ parse_arch_opt (s "a b") = None /\
+  parse_arch_opt (s "linux-any") <> None.
+Proof. vm_compute. repeat split; discriminate. Qed.
 Example empty_components_rejected : parse_arch_opt (s "--") = None /\ parse_arch_opt (s "linux-") = None /\ parse_arch_opt [] = None /\
   parse_arch_opt (s "-amd64") = None /\ parse_arch_opt (s "a--b") = None /\ parse_arch_opt (s "linux-any") <> None.
 Proof. vm_compute. repeat split; discriminate. Qed.
